@@ -7,6 +7,8 @@ type Strategy interface {
 	Init(w *World)
 	OnSpawn(w *World, t *Task)
 	OnWake(w *World, t *Task)
+	// OnSpin: t was forced to yield because it looks like a spin loop.
+	OnSpin(w *World, t *Task)
 	// PickPoint: the current task could continue. Return nil or t to stay.
 	PickPoint(w *World, t *Task) *Task
 	// PickBlocked: the current task cannot continue; return a runnable task or nil.
@@ -20,6 +22,7 @@ func (*StayStrategy) Name() string                        { return "stay" }
 func (*StayStrategy) Init(*World)                         {}
 func (*StayStrategy) OnSpawn(*World, *Task)               {}
 func (*StayStrategy) OnWake(*World, *Task)                {}
+func (*StayStrategy) OnSpin(*World, *Task)                {}
 func (*StayStrategy) PickPoint(w *World, t *Task) *Task   { return t }
 func (*StayStrategy) PickBlocked(w *World, t *Task) *Task { return w.defaultNextNoQuiesce(t) }
 
@@ -43,6 +46,7 @@ func (s *RandomWalk) Name() string          { return "random-walk" }
 func (s *RandomWalk) Init(*World)           {}
 func (s *RandomWalk) OnSpawn(*World, *Task) {}
 func (s *RandomWalk) OnWake(*World, *Task)  {}
+func (s *RandomWalk) OnSpin(*World, *Task)  {}
 func (s *RandomWalk) PickPoint(w *World, t *Task) *Task {
 	if !w.schedRng.Chance(s.Num, s.Den) {
 		return t
@@ -90,6 +94,9 @@ func (s *PCT) Init(w *World) {
 }
 func (s *PCT) OnSpawn(w *World, t *Task) { t.prio = int64(w.schedRng.Uint64()>>2) + 1 }
 func (s *PCT) OnWake(*World, *Task)      {}
+
+// OnSpin: a spinning task waits for somebody else; give everybody else precedence.
+func (s *PCT) OnSpin(w *World, t *Task) { t.prio = s.low; s.low-- }
 func (s *PCT) best(w *World, t *Task, includeT bool) *Task {
 	var best *Task
 	if includeT {
@@ -141,6 +148,7 @@ func (s *Bursts) Init(w *World) {
 }
 func (s *Bursts) OnSpawn(*World, *Task) {}
 func (s *Bursts) OnWake(*World, *Task)  {}
+func (s *Bursts) OnSpin(*World, *Task)  {}
 func (s *Bursts) PickPoint(w *World, t *Task) *Task {
 	if !s.at[w.Steps] {
 		return t
@@ -181,6 +189,7 @@ func (s *Windows) Init(w *World) {
 }
 func (s *Windows) OnSpawn(*World, *Task) {}
 func (s *Windows) OnWake(*World, *Task)  {}
+func (s *Windows) OnSpin(*World, *Task)  {}
 func (s *Windows) in(step uint64) bool {
 	for _, st := range s.starts {
 		if step >= st && step < st+s.Len {
